@@ -40,7 +40,10 @@ def cases(draw, big=False):
                 # which of the two frames is sampled (step 0 = first frame, step 4 = second frame), whether the
                 # second frame lives in a file of its own, and how that file is stored (own packing parameters)
                 frame=draw(st.sampled_from([0, 0, 1])), two_files=draw(st.booleans()),
-                storage2=draw(st.sampled_from(["f8", "f4", "i2", "i2b"])))
+                storage2=draw(st.sampled_from(["f8", "f4", "i2", "i2b"])),
+                # particles that die after the forcing was evaluated and are removed from the state (what a sparse
+                # output record does) before the tracker asks for the velocity of the survivors; 0 = nobody
+                drop=draw(st.sampled_from([0, 0, 0b0101101, 0b1000000000001, 0b11])))
 
 
 def build_fields(case, G):
@@ -140,10 +143,19 @@ def ladim_sample(d, fname, sub, case, X, Y, Z, ffile=None, nupdates=1):
     for _ in range(nupdates):
         timer.update()
         force.update()
-    u, v = force.velocity(X, Y, Z)
-    out = dict(u=np.array(u), v=np.array(v), vu=np.array(force.variables["u"]), vv=np.array(force.variables["v"]))
+    keep = np.ones(len(X), bool)
+    if case.get("drop"):
+        dead = [k for k in range(len(X)) if (case["drop"] >> (k % 16)) & 1]
+        keep[dead] = False
+        state["alive"][dead] = False
+        state.compactify()
+        u, v = force.velocity(state.X, state.Y, state.Z)
+    else:
+        u, v = force.velocity(X, Y, Z)
+    out = dict(u=np.array(u), v=np.array(v), vu=np.array(force.variables["u"])[keep],
+               vv=np.array(force.variables["v"])[keep], keep=keep)
     for nm in case["scalars"]:
-        out[nm] = np.array(force.variables[nm], float)
+        out[nm] = np.array(force.variables[nm], float)[keep]
         out["state_" + nm] = np.array(state[nm], float)
     force.close()
     return out
@@ -198,6 +210,9 @@ def oracle(case) -> core.CaseResult:
 
             res.fail("sampling_raises", f"{e!r}\n{traceback.format_exc()[-700:]}")
             return res
+    if case.get("drop"):
+        res.cls("velocity_after_dead_removed")
+        X, Y, Z = X[got["keep"]], Y[got["keep"]], Z[got["keep"]]
     zr = roms.grid_zr(G)
     U0, V0 = np.asarray(dec["u"][fr], float), np.asarray(dec["v"][fr], float)
     scale = max(1.0, float(np.max(np.abs(U0))), float(np.max(np.abs(V0))))
